@@ -184,4 +184,107 @@ Section Through.
     apply idle_no_prev_strobe; auto; [apply BP.state_inv; auto|].
     pose proof Hidle' as H. rewrite E in H. exact H.
   Qed.
+
+  (* ---------------------------------------------------------------------------------------- *)
+  (* a register inside the addressed word                                                     *)
+  (* ---------------------------------------------------------------------------------------- *)
+  Variable k : nat.
+  Variable r : M.reg.
+  Hypothesis Hk : nth_error (M.c_regs mc) k = Some r.
+  Hypothesis Hinw : reg_in_word bc (x_adr (tr t0)) r.
+  Hypothesis Hsel : reg_selected bc (x_adr (tr t0)) (x_sel (tr t0)) r.
+
+  (* first granule of the register, and the granule after its last one, within the word *)
+  Definition g_first : nat := Z.to_nat (M.r_start r - base).
+  Definition g_end : nat := Z.to_nat (M.r_stop r - base).
+
+  Lemma Hin : In r (M.c_regs mc).
+  Proof. eapply nth_error_In; exact Hk. Qed.
+
+  Lemma reg_nonempty : M.r_start r < M.r_stop r.
+  Proof. destruct Hmwf as (_ & Hl & _). destruct (MR.layout_from_In _ _ _ Hl Hin) as (_ & H & _). exact H. Qed.
+
+  Lemma g_bounds : Z.of_nat g_first = M.r_start r - base /\ Z.of_nat g_end = M.r_stop r - base /\
+                   (g_first < g_end <= R)%nat.
+  Proof.
+    pose proof reg_nonempty as Hne. pose proof HR as HR. destruct Hinw as (H1 & H2).
+    unfold g_first, g_end. lia.
+  Qed.
+
+  Lemma sel_granule i : (g_first <= i < g_end)%nat -> Z.testbit (x_sel (tr t0)) (Z.of_nat i) = true.
+  Proof. intros Hi. destruct g_bounds as (E0 & E1 & _). apply Hsel. lia. Qed.
+
+  (* ----- write ----- *)
+  Section Write.
+    Hypothesis Hwe : x_we (tr t0) = true.
+    Hypothesis Hwr : M.r_wr r = true.
+
+    Lemma wstb_port_S t : nth_error (M.o_wstb (elem_out_at bc mc tr (S t))) k = Some (M.wstb_next (mt t) r).
+    Proof. rewrite elem_out_eq. cbn [cstate_at cnext snd]. apply w_strobe_next. exact Hk. Qed.
+
+    Lemma wstb_exact j : (j <= R + 2)%nat ->
+      nth_error (M.o_wstb (elem_out_at bc mc tr (t0 + j))) k = Some (j =? g_end)%nat.
+    Proof.
+      intros Hj. destruct g_bounds as (E0 & E1 & Hb). pose proof HR as HR.
+      destruct j as [|j].
+      - rewrite Nat.add_0_r. destruct (Nat.eqb_spec 0 g_end) as [E|_]; [lia|].
+        destruct (Nat.eq_dec t0 0) as [Ez|Enz].
+        + rewrite Ez. rewrite elem_out_eq. cbn [cstate_at cinit snd]. exact (w_strobe_init mc _ k r Hk).
+        + assert (Es : t0 = S (pred t0)) by lia. rewrite Es. rewrite wstb_port_S.
+          destruct (mt_before (pred t0) Es) as (_ & Ew). unfold M.wstb_next. rewrite Ew.
+          rewrite andb_false_r. reflexivity.
+      - rewrite Nat.add_succ_r, wstb_port_S. f_equal. unfold M.wstb_next. rewrite Hwr. cbn [andb].
+        destruct (Nat.lt_ge_cases j R) as [Hlt|Hge].
+        + rewrite (mt_granule j Hlt). cbn [M.i_wstb M.i_addr]. rewrite Hwe, andb_true_r.
+          destruct (Nat.eqb_spec (S j) g_end) as [E|Hne].
+          * rewrite sel_granule by lia. destruct (Z.eqb_spec (base + Z.of_nat j) (M.r_stop r - 1)); [reflexivity|lia].
+          * destruct (Z.eqb_spec (base + Z.of_nat j) (M.r_stop r - 1)); [lia|]. apply andb_false_r.
+        + destruct (Nat.eqb_spec (S j) g_end) as [E|_]; [lia|].
+          assert (Ej : (j = R \/ j = R + 1)%nat) by lia.
+          destruct Ej as [-> | ->]; [destruct mt_at_R as (_ & Ew)|rewrite Nat.add_assoc; destruct mt_at_R1 as (_ & Ew)];
+            rewrite Ew; reflexivity.
+    Qed.
+
+    Lemma wdata_through :
+      nth_error (M.o_wdata (elem_out_at bc mc tr (t0 + g_end))) k =
+      Some (assemble (M.c_dw mc) (M.r_width r)
+                     (fun j => B.lane bc (Z.of_nat g_first + j) (x_dat_w (tr t0)))
+                     (Z.to_nat (reg_len r))).
+    Proof.
+      destruct g_bounds as (E0 & E1 & Hb). pose proof HR as HR.
+      rewrite elem_out_eq, (o_wdata_nth mc _ _ k r Hk Hwr). f_equal.
+      set (T := (t0 + R + 2)%nat).
+      rewrite <- (st_at_mis bc mc tr T) by (unfold T; lia).
+      replace (t0 + g_end)%nat with (S (t0 + (g_end - 1)))%nat by lia.
+      assert (Hlast : mt (t0 + (g_end - 1))%nat =
+                {| M.i_addr := M.r_stop r - 1; M.i_rstb := false; M.i_wstb := true;
+                   M.i_wdata := B.lane bc (Z.of_nat (g_end - 1)) (x_dat_w (tr t0));
+                   M.i_rvals := x_rvals (tr (t0 + (g_end - 1))%nat) |}).
+      { rewrite mt_granule by lia. rewrite sel_granule by lia. rewrite Hwe. cbn [andb negb]. f_equal. lia. }
+      apply (write_atomic mc (mis bc mc tr T) (t0 + (g_end - 1)) k r (mt (t0 + (g_end - 1))%nat)
+               (fun j => (t0 + g_first + Z.to_nat j)%nat)); auto.
+      - apply nth_mis. unfold T. lia.
+      - rewrite Hlast. reflexivity.
+      - rewrite Hlast. reflexivity.
+      - intros j Hj _. unfold reg_len in Hj.
+        split; [lia|]. split.
+        + exists (mt (t0 + (g_first + Z.to_nat j))%nat).
+          split; [rewrite Nat.add_assoc; apply nth_mis; unfold T; lia|].
+          rewrite mt_granule by lia. cbn [M.i_wstb M.i_addr M.i_wdata].
+          rewrite sel_granule by lia. rewrite Hwe.
+          split; [reflexivity|]. split; [lia|].
+          replace (Z.of_nat (g_first + Z.to_nat j)) with (Z.of_nat g_first + j) by lia.
+          symmetry. apply trunc_small. rewrite <- Hfit. apply lane_range. apply Hwf.
+        + intros u i Hu Hi (Hs & Ha).
+          replace u with (t0 + (u - t0))%nat in Hi by lia.
+          rewrite nth_mis in Hi by (unfold T; lia). injection Hi as <-.
+          rewrite mt_granule in Ha by lia. cbn [M.i_addr] in Ha. lia.
+      - intros j u Hj _ Hu (i & k' & r' & Hi & Hk' & Hne & Hwr' & Hs & Ha). unfold reg_len in Hj.
+        replace u with (t0 + (u - t0))%nat in Hi by lia.
+        rewrite nth_mis in Hi by (unfold T; lia). injection Hi as <-.
+        rewrite mt_granule in Ha by lia. cbn [M.i_addr] in Ha.
+        apply Hne. destruct Hmwf as (_ & Hl & _).
+        apply (MR.layout_index_unique (M.c_regs mc) k' k r' r (base + Z.of_nat (u - t0)) Hl Hk' Hk); lia.
+    Qed.
+  End Write.
 End Through.
